@@ -23,6 +23,13 @@ RULE = (
 )
 
 
+class _FalsyCollector(list):
+    """A user error handler that is a callable object which happens to be falsy while empty."""
+
+    def __call__(self, err):
+        self.append(err)
+
+
 class _Count(logging.Handler):
     def __init__(self):
         super().__init__(level=logging.DEBUG)
@@ -76,7 +83,7 @@ def judge(case):
         if pinned.crc24q_table(sent[i]) == 0:
             raise core.Broken("damage pattern is not detectable by the reference CRC")
     good = [f for i, f in enumerate(frames) if i not in damage]
-    herrs = []
+    herrs = _FalsyCollector() if use_handler == "falsy" else []
     counter = _Count()
     lg = logging.getLogger()  # root: whichever logger the library uses, its records arrive here
     lg.addHandler(counter)
@@ -84,7 +91,8 @@ def judge(case):
     lg.setLevel(logging.DEBUG)
     try:
         rdr = RTCMReader(io.BytesIO(b"".join(sent)), quitonerror=q,
-                         errorhandler=herrs.append if use_handler else None)
+                         errorhandler=(herrs if use_handler == "falsy" else herrs.append)
+                         if use_handler else None)
         events = []
         for _ in range(2 * len(frames) + 4):
             try:
@@ -147,6 +155,11 @@ def cases(tier):
     out = []
     ks = (2, 3) if tier == "quick" else (1, 2, 3, 4)
     modes = [(0, True), (1, True), (1, False), (2, True), (0, False), (2, False)]
+    for k in (2, 3):
+        frames = base_frames(k)
+        for i in range(k):
+            for q in (0, 1, 2):
+                out.append({"frames": frames, "damage": {i: 1}, "q": q, "handler": "falsy"})
     for k in ks:
         frames = base_frames(k)
         # no damage
